@@ -1,6 +1,7 @@
 package main
 
 import (
+	"fmt"
 	"go/types"
 	"sort"
 
@@ -33,6 +34,10 @@ func (vc *VC) reset() {
 	vc.fnTerms = map[Term]*ssa.Function{}
 	vc.occ = map[string]int{}
 	vc.frameCtr = 0
+	vc.inlinedInstrs = 0
+	vc.entryKeys = map[string]string{}
+	vc.contractErrs = map[Term]bool{}
+	vc.usesModTy = false
 	vc.Inlined = map[string]bool{}
 	vc.Abstracted = map[string]bool{}
 	vc.Assumed = map[string]bool{}
@@ -108,8 +113,20 @@ func (vc *VC) generateOnce() {
 		vc.trusted[name] = true
 		fvs = append(fvs, name)
 	}
-	vc.entry = st.clone()
 	ct := vc.C.Funcs[vc.rootKey]
+	if ct == nil && vc.opts.Safety {
+		// default entry condition of a handler-like function: nothing has been written yet
+		for i, p := range fn.Params {
+			if isNamed(p.Type(), "net/http", "ResponseWriter") {
+				if _, ok := vc.C.Ghosts["Resp_written"]; ok {
+					m := vc.getMem(st, "G:Resp_written", "(Array Val Bool)")
+					vc.sc.Assume("true", Not(sx("select", m, params[i])))
+					vc.Assumed["default entry condition: no response written yet on "+p.Name()] = true
+				}
+			}
+		}
+	}
+	vc.entry = st.clone()
 	vc.rootContract = ct
 	var env *Env
 	if ct != nil {
@@ -164,6 +181,44 @@ func (vc *VC) generateOnce() {
 		}
 		vc.reportEnvErrors(penv)
 	}
+	if out != nil && vc.opts.Safety && ct == nil {
+		// Go's (value, nil) / (zero, err) idiom, which call sites rely on, checked on the body
+		sig := fn.Signature
+		n := sig.Results().Len()
+		if n >= 2 && isErrorType(sig.Results().At(n-1).Type()) {
+			for i := 0; i < n-1; i++ {
+				rt := sig.Results().At(i).Type()
+				var g Term
+				switch vc.sortOf(rt) {
+				case "Ref":
+					if _, isMap := types.Unalias(rt).Underlying().(*types.Map); isMap {
+						continue
+					}
+					if pt, ok := typesPointerElem(rt); ok {
+						if _, isBasic := types.Unalias(pt).Underlying().(*types.Basic); isBasic {
+							continue // optional scalar (*uint, *string): nil is a value
+						}
+					}
+					g = Not(Eq(res[i], "nilref"))
+				case "Val":
+					if isTypeParam(rt) {
+						continue
+					}
+					g = And(Not(Eq(res[i], "nilval")), sx("vnn", res[i]))
+				default:
+					continue
+				}
+				if vc.trusted[res[i]] {
+					continue
+				}
+				if p, ok := vc.prov[res[i]]; ok {
+					g = Or(g, p)
+				}
+				ob := &Oblig{Name: fmt.Sprintf("%s/idiom:result%d-non-nil-when-err-nil", vc.rootKey, i), Kind: "idiom", Func: vc.rootKey, InFunc: vc.rootKey}
+				vc.sc.Oblig(out.reach, Implies(Eq(res[n-1], "nilval"), g), ob)
+			}
+		}
+	}
 	if out != nil && vc.opts.Canary {
 		ob := &Oblig{Name: vc.rootKey + "/canary:return-reachable", Kind: "canary", Func: vc.rootKey, InFunc: vc.rootKey, Cover: true}
 		vc.sc.Oblig(out.reach, "true", ob)
@@ -171,6 +226,7 @@ func (vc *VC) generateOnce() {
 	vc.exit = out
 	vc.exitResults = res
 	vc.finalizeErrors()
+	vc.finalizeEntryTrust()
 	vc.finalizeFrames()
 	vc.finalizeTypes()
 	// unbound loop specs are binding errors
